@@ -203,6 +203,39 @@ def concrete_integer_columns(rep):
     rep.extra["concrete_integer_designs"] = n
 
 
+def missing_level_rows(rep):
+    """a row whose categorical value is missing (kept with na_action='pass') equals no level: no column
+    labelled v[l], and no slot of a group (e|v[l]), is 1 there (plain API; ordered categorical columns, the
+    only kind for which the pinned code accepts missing values)"""
+    from formulae import design_matrices
+
+    core.silence_logging()
+    o = pd.Categorical(["lo", "mid", None, "hi", "lo", "hi", "mid", None], categories=["lo", "mid", "hi"], ordered=True)
+    df = pd.DataFrame({"y": [1.0, 2.0, 0.5, 4.0, 3.0, 2.5, 1.5, 0.0], "x": [1.0, 2.0, 3.0, 5.0, 8.0, 13.0, 21.0, 34.0], "o": o})
+    miss = [2, 7]
+    n = 0
+    for f in ("y ~ 0 + o", "y ~ x + o", "y ~ 0 + o:x", "y ~ x + (1|o)", "y ~ (0 + x|o)"):
+        n += 1
+        try:
+            dm = design_matrices(f, df, na_action="pass")
+        except Exception:  # noqa -- a refusal is not a wrong label
+            continue
+        blocks = []
+        if dm.common is not None:
+            blocks.append(([str(c) for c in dm.common.as_dataframe().columns], np.asarray(dm.common.design_matrix, dtype=float)))
+        if dm.group is not None:
+            for name, t in dm.group.terms.items():
+                blocks.append((list(t.labels), np.asarray(dm.group[name], dtype=float)))
+        for labels, X in blocks:
+            X = X[:, None] if X.ndim == 1 else X
+            for j, lab in enumerate(labels):
+                if "o[" in lab and any(X[i, j] == (1.0 if ":x" not in lab and not lab.startswith("x|") else df["x"][i]) for i in miss):
+                    rep.violations.append({"label": "a row with a missing categorical value is coded as one of the levels", "signature": {"what": "missing level coded as a level", "formula": f, "label": lab},
+                                           "replay": {"formula": f, "label": lab, "column": X[:, j].tolist()}, "reproduced": True, "detail": f"{f} (na_action='pass'): column {lab!r} = {X[:, j].tolist()} although o is missing in rows {miss}"})
+                    break
+    rep.extra["missing_level_formulas"] = n
+
+
 def run(tier, seed):
     rep = core.Report(ID, tier, seed)
     rep.functions = [
@@ -222,6 +255,7 @@ def run(tier, seed):
     rep.rule = "one case = (formula, categorical flavour, row order) run once on symbolic numeric cells; non-trivial = a design was built and at least one matrix checked"
     pipe.run_cases(rep, "vf.props.c04", "harness", cs)
     concrete_integer_columns(rep)
+    missing_level_rows(rep)
     rep.nontrivial = int(rep.reach.get("design built", 0))
     if rep.nontrivial == 0:
         rep.inconclusive.append("vacuous: no design was built")
